@@ -10,7 +10,9 @@ admitted task leaves the `async with` body normally / by an exception / by cance
 admission times compared, with bodies, exceptions and cancel injection).
 
 The theorems quantify over ALL op lists (= all arrival times, all numbers of concurrent entrants, all orders in which
-tasks that wake at the same instant re-check, arbitrarily late wake-ups, all body durations, and every way a body can end
+tasks that wake at the same instant re-check, arbitrarily LATE wake-ups (a sleeper's `attempt` may come at any time ≥ the
+requested wake-up time — timers fire late when the loop is busy — and the admission is stamped with that real time), all
+body durations, and every way a body can end
 — including cancellation of admitted and of still-waiting tasks), every start time, every `count` and every window
 length `W`.  `s.log` is the list of all admission times: an admission counts whatever happens to its body afterwards.
 
@@ -142,6 +144,11 @@ example : run ⟨2, 4⟩ (init 0) [.attempt 0, .attempt 1, .attempt 2, .tick 4, 
 -- two sleepers woken at the same instant with room for one: the second goes back to sleep until the next slot
 example : run ⟨1, 4⟩ (init 0) [.attempt 0, .attempt 1, .attempt 2, .tick 4, .attempt 1, .attempt 2]
     = .ok ⟨4, [4], [(2, 4, 8)], [0, 4], [0, 1]⟩ := by decide
+-- a LATE wake-up (the loop was busy: the sleep asked for 4, the task runs at 6): the admission is stamped with the real time 6,
+-- so an arrival at 9 (less than a window after 6) has to wait until 6 + 4 = 10 — `attempt` only requires now ≥ the requested
+-- wake-up time, every theorem above covers such runs
+example : run ⟨1, 4⟩ (init 0) [.attempt 0, .attempt 1, .tick 6, .attempt 1, .tick 3, .attempt 2]
+    = .ok ⟨9, [6], [(2, 9, 10)], [0, 6], [0, 1]⟩ := by decide
 -- a sleep never ends early; `count = 0` makes the code index an empty deque
 example : run ⟨1, 4⟩ (init 0) [.attempt 0, .attempt 1, .tick 3, .attempt 1] = .error .notDue := by decide
 example : run ⟨0, 4⟩ (init 0) [.attempt 0] = .error .indexError := by decide
